@@ -253,6 +253,48 @@ def findFramePairsBeforeFix {G P : Type} (gt : Labels G) (pr : Labels P) : Optio
 def evalFrames {G P : Type} (gt : Labels G) (pr : Labels P) : List (Frame G P) :=
   (findFramePairs gt pr).map (fun ab => { gts := ab.1.insts, prs := some ab.2.insts })
 
+/-! ### `user_labels_only`: which instances and which frames the Evaluator enumerates -/
+
+/-- the instances of a gt frame that take part: `lf.user_instances` with `user_labels_only=True`
+(the default), **all** instances of the frame — predicted ones stored in the reference labels
+included — with `user_labels_only=False` -/
+def enumerated {I : Type} (userOnly : Bool) (isUser : I → Bool) (l : List I) : List I :=
+  if userOnly then l.filter isUser else l
+
+/-- `user_labels_only=False`: every labeled frame of the gt video is a candidate, also one without
+any instance -/
+def pairsOfVideoAll {G P : Type} (gt : Labels G) (pr : Labels P) (vi pj : Nat) : List (LFrame G × LFrame P) :=
+  (gt.frames.filter (fun lf => lf.video == vi)).flatMap (fun lf =>
+    match pr.frames.find? (fun x => x.video == pj && x.frameIdx == lf.frameIdx) with
+    | some x => [(lf, x)]
+    | none => [])
+
+def pairsFromAll {G P : Type} (gt : Labels G) (pr : Labels P) : Nat → List VideoKey → List (LFrame G × LFrame P)
+  | _, [] => []
+  | vi, vk :: rest =>
+    (match firstIdx (sameVideo vk) pr.videos with
+      | none => []
+      | some pj => pairsOfVideoAll gt pr vi pj) ++ pairsFromAll gt pr (vi + 1) rest
+
+def findFramePairsAll {G P : Type} (gt : Labels G) (pr : Labels P) : List (LFrame G × LFrame P) :=
+  pairsFromAll gt pr 0 gt.videos
+
+/-- `find_frame_pairs(labels_gt, labels_pr, user_labels_only)`: `gt.frames[·].insts` lists **all**
+instances of the frame in order, `isUser` tells user instances from predicted ones.  The returned
+gt frames carry the enumerated instances (the code overwrites `lf.instances` in the default mode). -/
+def evaluatorPairs {G P : Type} (userOnly : Bool) (isUser : G → Bool) (gt : Labels G) (pr : Labels P) :
+    List (LFrame G × LFrame P) :=
+  let view : Labels G :=
+    { videos := gt.videos,
+      frames := gt.frames.map (fun f => { video := f.video, frameIdx := f.frameIdx,
+                                          insts := enumerated userOnly isUser f.insts }) }
+  if userOnly then findFramePairs view pr else findFramePairsAll view pr
+
+/-- the frames handed to `match_frame_pairs`, either mode -/
+def evaluatorFrames {G P : Type} (userOnly : Bool) (isUser : G → Bool) (gt : Labels G) (pr : Labels P) :
+    List (Frame G P) :=
+  (evaluatorPairs userOnly isUser gt pr).map (fun ab => { gts := ab.1.insts, prs := some ab.2.insts })
+
 /-! ## percentiles of the distance summary -/
 
 section pct
